@@ -104,22 +104,31 @@ class ImplRun:
 
     def _stable_base(self):
         """descriptors the daemon holds with no client connected, after one client has come and gone (whatever it
-        opens lazily on first use is open by then)"""
+        opens lazily on first use is open by then). The daemon is known to have noticed the probe's hang-up when the
+        number of its descriptors has gone down again (waiting a fixed time is not enough on a busy machine)."""
+        def settle(limit=3.0):
+            last, same, t0 = None, 0, time.time()
+            while time.time() - t0 < limit:
+                n = self.d.nfds()
+                same = same + 1 if n == last else 0
+                last = n
+                if same >= 3:
+                    break
+                time.sleep(0.02)
+            return last
+        with_probe = None
         try:
             cl = bus.Client(self.d)          # authenticates, never says Hello: no unique name is used up
             time.sleep(0.03)
+            with_probe = settle()
             cl.close()
         except (OSError, InfraError):
             pass
-        last, same, t0 = None, 0, time.time()
-        while time.time() - t0 < 3:
-            n = self.d.nfds()
-            same = same + 1 if n == last else 0
-            last = n
-            if same >= 3:
-                break
-            time.sleep(0.02)
-        return last
+        if with_probe is not None:
+            t0 = time.time()
+            while self.d.nfds() >= with_probe and time.time() - t0 < 5:
+                time.sleep(0.01)
+        return settle()
 
     def stop(self):
         for c in self.c.values():
